@@ -91,6 +91,14 @@ def impl_core(c):
     return ' '.join(e[:5]) if len(e) >= 6 else c.impl
 
 
+def model_core(c):
+    """The model's answer without the dry-run text (the text is compared by C06 only)."""
+    if c.model is None:
+        return None
+    e = c.model.split(' ')
+    return ' '.join(e[:5]) if len(e) >= 6 else c.model
+
+
 def impl_dry_text(c):
     e = c.impl.split(' ')
     return vlib.unhex(e[5]) if len(e) >= 6 else None
